@@ -1,5 +1,5 @@
-(* C08 -- the full-strength statement about parity-write errors and its three refutations (concrete witnesses evaluated
-   by vm_compute on CLOSED terms only), plus the non-vacuity examples.  Kept apart from FaultProofs.v so that each file
+(* C08 -- concrete instances (vm_compute on CLOSED terms only): the former refutation witnesses of the parity-write statement,
+   now regression examples, plus the non-vacuity examples.  Kept apart from FaultProofs.v so that each file
    compiles in a few seconds. *)
 From Coq Require Import NArith ZArith List Bool Arith Lia.
 From Snap.Array Require Import ArrayDefs SyncModel SyncProofsDefs.
@@ -7,20 +7,9 @@ From Snap.Fault Require Import FaultModel.
 Import ListNotations.
 
 (* ---------------------------------------------------------------------------------------------------------------- *)
-(* write faults: the full-strength statement and its three refutations                                               *)
+(* write faults: the three situations that refuted the property on the pinned tree (F-C08, three keys), replayed on the model of the   *)
+(* repaired tree (55c30f5, 1304269, 0ecd44a): now instances of FaultProofs.write_error_safe.  The check replays them on the binary.    *)
 (* ---------------------------------------------------------------------------------------------------------------- *)
-(* a stripe recorded synced and healthy holds, in every level, a block produced by the generator *)
-Definition no_false_protection (c : content) (par : parity) : Prop :=
-  forall pos, recorded_healthy c pos = true -> forall lv, In lv par -> exists v, nth pos lv PNone = PEnc v.
-
-(* C08 for parity writes, at full strength: whenever some pwrite of the run fails the exit status is failing, and no
-   stripe ends recorded synced-and-healthy over a block that was not written *)
-Definition write_error_safe_stmt : Prop :=
-  forall hashf bs nlev o now fs faults wf m lag stripes stop c par,
-    no_false_protection c par ->
-    let r := sync_loop_w hashf bs nlev o now fs faults wf m lag stripes stop 0 [] 0 c par 0 0 0 in
-    (0 < w_nfail r -> run_failing (w_run r) = true) /\ no_false_protection (ro_content (w_run r)) (ro_parity (w_run r)).
-
 (* the witness array: two data disks, one 8 KiB file each (8 blocks, just added: CHG with cleared past hash), one parity
    level of 8 blocks holding nothing known, no faults but ONE failing pwrite (EIO) at stripe k *)
 Definition hz (b : bid) (len : N) : hval := HReal b.
@@ -34,54 +23,41 @@ Definition wpar : parity := [map (fun i => PJunk (N.of_nat (S i))) (seq 0 8)].
 Definition wo : sopts := mkSO false false 100.
 Definition wrun (m : iomode) (k : nat) : wrun :=
   sync_loop_w hz 1024 1 wo 7 wfs (fun _ => []) (fun pos l => if Nat.eqb pos k then WEio else WOk) m (fun _ _ => 1)
-              (seq 0 8) None 0 [] 0 wc wpar 0 0 0.
+              (seq 0 8) None 0 [] [] wc wpar 0 0 0.
 
-Lemma wc_no_false_protection : no_false_protection wc wpar.
-Proof.
-  intros pos H. unfold recorded_healthy in H.
-  assert (E : nth pos (c_info wc) None = None) by (destruct pos; reflexivity).
-  rewrite E in H. rewrite andb_false_r in H. discriminate.
-Qed.
-
-(* threaded, the failing write is not among the last queued: the error is counted (exit 1) but the stripe is recorded
-   synced, just-synced, not bad, over the old parity block *)
-Theorem write_error_refuted_threaded_notlast :
+(* threaded, the failing write is not among the last queued (was: exit 1 but recorded synced and healthy) *)
+Example write_error_threaded_notlast_now_bad :
   let r := wrun (Threaded 3) 3 in
-  w_nfail r = 1 /\ run_failing (w_run r) = true /\ ro_nio (w_run r) = 1 /\
-  recorded_healthy (ro_content (w_run r)) 3 = true /\ nth 3 (nth 0 (ro_parity (w_run r)) []) PNone = PJunk 4.
+  w_fpos r = [3] /\ run_failing (w_run r) = true /\ ro_nio (w_run r) = 1 /\
+  recorded_healthy (ro_content (w_run r)) 3 = false /\
+  nth 3 (c_info (ro_content (w_run r))) None = Some (mkInfo 7 true false true) /\
+  recorded_healthy (ro_content (w_run r)) 4 = true /\
+  nth 3 (nth 0 (ro_parity (w_run r)) []) PNone = PJunk 4.
 Proof. vm_compute. repeat split. Qed.
 
-(* threaded, the failing write is the last one queued: since the repair 1304269 of F-C08-last-writer-errors-lost its report is
-   collected by the end-of-run flush and the exit status is failing (FaultProofs.write_error_exit_safe); the stripe is
-   nevertheless recorded synced over the old block *)
-Theorem write_error_last_recorded_synced :
+(* threaded, the failing write is the last one queued (was: exit 0, 'Everything OK'): counted and marked by the end-of-run flush *)
+Example write_error_threaded_last_now_bad :
   let r := wrun (Threaded 3) 7 in
-  w_nfail r = 1 /\ run_failing (w_run r) = true /\ length (w_lost r) = 0 /\
-  recorded_healthy (ro_content (w_run r)) 7 = true /\ nth 7 (nth 0 (ro_parity (w_run r)) []) PNone = PJunk 8.
+  w_fpos r = [7] /\ run_failing (w_run r) = true /\ length (w_lost r) = 0 /\
+  recorded_healthy (ro_content (w_run r)) 7 = false /\ nth 7 (nth 0 (ro_parity (w_run r)) []) PNone = PJunk 8.
 Proof. vm_compute. repeat split. Qed.
 
-(* single-thread mode (after the repair of F-C08-mono-writer-errors-lost the exit status is failing:
-   FaultProofs.write_error_exit_mono): the stripe is nevertheless recorded synced over the old parity block *)
-Theorem write_error_refuted_mono_recorded_synced :
+(* single-thread mode (was: exit 0 wherever the write failed) *)
+Example write_error_mono_now_bad :
   let r := wrun Mono 3 in
-  w_nfail r = 1 /\ run_failing (w_run r) = true /\ length (w_lost r) = 0 /\
-  recorded_healthy (ro_content (w_run r)) 3 = true /\ nth 3 (nth 0 (ro_parity (w_run r)) []) PNone = PJunk 4.
+  w_fpos r = [3] /\ run_failing (w_run r) = true /\ length (w_lost r) = 0 /\
+  recorded_healthy (ro_content (w_run r)) 3 = false /\ nth 3 (nth 0 (ro_parity (w_run r)) []) PNone = PJunk 4.
 Proof. vm_compute. repeat split. Qed.
 
-Theorem write_error_safe_refuted : ~ write_error_safe_stmt.
-Proof.
-  intro H.
-  destruct (H hz 1024%N 1 wo 7%N wfs (fun _ => []) (fun pos l => if Nat.eqb pos 3 then WEio else WOk) (Threaded 3) (fun _ _ => 1)
-              (seq 0 8) None wc wpar wc_no_false_protection) as [_ NF].
-  (* only closed terms are evaluated, by vm_compute; the hypotheses are matched syntactically *)
-  match type of NF with
-  | no_false_protection ?c ?p =>
-      assert (Hh : recorded_healthy c 3 = true) by (vm_compute; reflexivity);
-      assert (Hp : nth 3 (nth 0 p []) PNone = PJunk 4) by (vm_compute; reflexivity);
-      assert (Hin : In (nth 0 p []) p) by (vm_compute; left; reflexivity)
-  end.
-  destruct (NF 3 Hh _ Hin) as [v Hv]. rewrite Hp in Hv. discriminate Hv.
-Qed.
+(* a fatal write error (ENOSPC) stops the run at the iteration that sees it: the stripe is marked bad all the same, the stripes
+   after the stop stay unsynced *)
+Example write_error_fatal_now_bad :
+  let r := sync_loop_w hz 1024 1 wo 7 wfs (fun _ => []) (fun pos l => if Nat.eqb pos 2 then WErr else WOk) (Threaded 3) (fun _ _ => 1)
+                       (seq 0 8) None 0 [] [] wc wpar 0 0 0 in
+  ro_bailed (w_run r) = true /\ run_failing (w_run r) = true /\ w_fpos r = [2] /\
+  recorded_healthy (ro_content (w_run r)) 2 = false /\ recorded_healthy (ro_content (w_run r)) 3 = true /\
+  recorded_healthy (ro_content (w_run r)) 4 = false.
+Proof. vm_compute. repeat split. Qed.
 
 (* non-vacuity of read_error_safe and error_limit: an EIO reading disk 0 at stripe 2 of the witness array *)
 Example read_error_safe_nonvacuous :
@@ -90,7 +66,7 @@ Example read_error_safe_nonvacuous :
 Proof. vm_compute. repeat split. Qed.
 Example error_limit_nonvacuous :
   let r := sync_loop_w hz 1024 1 (mkSO false false 2) 7 wfs (fun p => if Nat.eqb p 1 || Nat.eqb p 4 then [Some RdIoCont] else [])
-                       (fun _ _ => WOk) (Threaded 3) (fun _ _ => 1) (seq 0 8) None 0 [] 0 wc wpar 0 0 0 in
+                       (fun _ _ => WOk) (Threaded 3) (fun _ _ => 1) (seq 0 8) None 0 [] [] wc wpar 0 0 0 in
   ro_bailed (w_run r) = true /\ ro_nio (w_run r) = 2 /\ recorded_healthy (ro_content (w_run r)) 5 = false.
 Proof. vm_compute. repeat split. Qed.
 Example scrub_read_error_nonvacuous :
